@@ -41,7 +41,7 @@ def gen_write(rng):
         ins = []
         for _ in range(rng.randint(0, 3)):
             s = rng.choice([{"k": "all"}, {"k": "build"}, {"k": "launch"}, {"k": "process", "p": bl(rng.choice(["web", "w2"]))}])
-            ins.append({"s": s, "b": rng.choice(list(BEH_COQ)), "n": bl(rng.choice(["PATH", "X", "Y_Z"])), "v": bl(rng.choice(["", "v", "/a:/b"]))})
+            ins.append({"s": s, "b": rng.choice(list(BEH_COQ)), "n": bl(rng.choice(["PATH", "X", "Y_Z", "app.name", "app.port", ".hid"])), "v": bl(rng.choice(["", "v", "/a:/b"]))})
         return {"w": "env", "ins": ins}
     if r < 0.7:
         return {"w": "sboms", "l": [[rng.randint(0, 2), bl(rng.choice(["{}", "{\"a\":1}", ""]))] for _ in range(rng.randint(0, 3))]}
